@@ -26,6 +26,9 @@ type pcand struct {
 	root  node.Root
 	model kv.Model
 	early bool
+	// trees: the tree objects (one per backend) that committed this candidate, kept open so that ONE candidate of the next
+	// version can be built by the same long-lived tree (what the consensus state and a runtime's state do)
+	trees map[string]mkvs.Tree
 }
 
 // TestC06Pipelined covers candidates for the next version that are committed before the previous version is finalized.
@@ -55,6 +58,12 @@ func TestC06Pipelined(t *testing.T) {
 		}
 		nver := rapid.IntRange(2, 5).Draw(t, "nver")
 		// commit one candidate for `version` derived from `parent` on every backend; returns nil when a backend refuses
+		var allTrees []mkvs.Tree
+		defer func() {
+			for _, tr := range allTrees {
+				tr.Close()
+			}
+		}()
 		commit := func(version uint64, parent *pcand, early bool, tag string) *pcand {
 			m := parent.model.Clone()
 			nops := rapid.IntRange(1, 6).Draw(t, "nops")
@@ -74,13 +83,25 @@ func TestC06Pipelined(t *testing.T) {
 				m[string(k)] = v
 			}
 			var rh hash.Hash
+			continued := parent.trees != nil && rapid.IntRange(0, 2).Draw(t, "continueParentTree") > 0
+			keep := rapid.Bool().Draw(t, "keepTree")
+			kept := map[string]mkvs.Tree{}
+			parentTrees := parent.trees
+			if continued {
+				parent.trees = nil // (a tree object goes on along one branch only)
+				rec.Label("candidate-built-by-the-tree-that-committed-its-parent")
+			}
 			for _, b := range kv.Backends {
 				var tr mkvs.Tree
-				if parent.root.Hash.IsEmpty() {
+				switch {
+				case continued:
+					tr = parentTrees[b]
+				case parent.root.Hash.IsEmpty():
 					tr = mkvs.New(nil, dbs[b], node.RootTypeState)
-				} else {
+				default:
 					tr = mkvs.NewWithRoot(nil, dbs[b], parent.root)
 				}
+				allTrees = append(allTrees, tr)
 				for _, o := range ops {
 					var err error
 					if o.v == nil {
@@ -94,7 +115,11 @@ func TestC06Pipelined(t *testing.T) {
 					}
 				}
 				_, h, err := tr.Commit(ctx, kv.Namespace, version)
-				tr.Close()
+				if keep && err == nil {
+					kept[b] = tr
+				} else {
+					tr.Close()
+				}
 				if err != nil {
 					trace = append(trace, fmt.Sprintf("%s: commit of %s refused: %v", b, tag, err))
 					rec.Label("commit-refused:" + b)
@@ -106,7 +131,14 @@ func TestC06Pipelined(t *testing.T) {
 				fail("root-not-reference", "candidate %s: committed root %s, reference root %s", tag, rh, want)
 			}
 			trace = append(trace, fmt.Sprintf("v%d candidate %s early=%v: %d ops -> %s", version, tag, early, len(ops), rh.String()[:8]))
-			return &pcand{root: kv.Root(version, node.RootTypeState, rh), model: m, early: early}
+			c := &pcand{root: kv.Root(version, node.RootTypeState, rh), model: m, early: early}
+			if keep && len(kept) == len(kv.Backends) {
+				c.trees = kept
+			}
+			if continued {
+				trace[len(trace)-1] += " (built by the tree that committed its parent)"
+			}
+			return c
 		}
 		empty := &pcand{root: kv.EmptyRoot(1, node.RootTypeState), model: kv.Model{}}
 		// version 1: candidates, winner chosen up front
